@@ -37,12 +37,12 @@ pub const DEF: CheckDef = CheckDef {
     id: "C18",
     run,
     technique: "bounded-exhaustive enumeration of consistent camt.053 statements rendered as XML by the generator; the real importer (library entry point and ImportCmd on real files) is compared with a reference import written from the statement, and funding + printed output is fed back through the real report::process (acceptance and exact final balance)",
-    rule: "case = one statement + configuration = (currency unit, opening balance (3 per unit; CHF: 0, 100.00, -50.25), notation of the figures, configuration, sequence of entries). Entry alphabet E (1440) = side{CRDT,DBIT} x amount{0.05,10.10,1000} x 5 relative value/booking-date forms x 48 detail/charge shapes (see notes/C18/NOTES.md). Families, each a complete product x 3 openings: F0 no entry, F1 one entry over E, F1n same without operator, F2n pairs without operator over 24, quick F2 pairs over 108 / F2d date pairs over 20 / F3 triples over 12, thorough F2 pairs over 1140 / F3 triples over 72 / F4 quadruples over 12 (all x 2 row orders); configuration families over 18 letters: Fw imported-account width 34..48 x {ASCII, wide} x precision {2, none}, Fc same for the rewrite-assigned counter account, Fl 10 nested-fragment layouts x 2 row orders; value classes: Fd one entry x 20 absolute (value, booking) date pairs (month/year/leap-day/decade/millennium boundaries, > 1 year apart, both orders) x 2 row orders; Fp-<ccy> one entry over 32 letters in units of 0/1/2/3/4/8 decimals (JPY, XDC, CHF, KWD, CLF, BTC; amounts 5 units, all-decimals figure, >= 1 000 000, 1.1) x notation {full, minimal, zero-padded} x precision {unit, none}; Fq-<ccy> pairs over 8 letters; zero figures: Fz one zero-amount entry (CRDT, DBIT) x 2 date forms x 10 charge-free shapes, Fz2 pairs over side x {0, 10.10} x {k0,k1,k2}, Fz3 triples over side x {0, 0.05} x k0 (x 2 row orders). states = statements executed, transitions = ledger transactions compared with the reference (both observations), validated = MUST statements",
+    rule: "case = one statement + configuration = (currency unit, opening balance (3 per unit; CHF: 0, 100.00, -50.25), notation of the figures, configuration, sequence of entries). Entry alphabet E (2040) = side{CRDT,DBIT} x amount{0.05,10.10,1000} x 5 relative value/booking-date forms x 68 detail/charge shapes (see notes/C18/NOTES.md; 20 of them measure the included charges against the amount of the imported transaction that carries them: amount - 0.01, exactly the amount in 1/2/3 records, amount + 0.01; on an entry without details, a single detail, either or both details of a batch, a detail of the opposite side, entry-level on a batch, with and without TxAmt). Families, each a complete product x 3 openings: F0 no entry, F1 one entry over E, F1n same without operator, F2n pairs without operator over 24, Fb1 = F1 and Fb2 = quick F2 with the optional Btch header left out, quick F2 pairs over 108 / F2d date pairs over 20 / F3 triples over 12, thorough F2 pairs over 1140 / F3 triples over 72 / F4 quadruples over 12 (all x 2 row orders); configuration families over 18 letters: Fw imported-account width 34..48 x {ASCII, wide} x precision {2, none}, Fc same for the rewrite-assigned counter account, Fl 10 nested-fragment layouts x 2 row orders; value classes: Fd one entry x 20 absolute (value, booking) date pairs (month/year/leap-day/decade/millennium boundaries, > 1 year apart, both orders) x 2 row orders; Fp-<ccy> one entry over 48 letters (incl. charges = amount without TxAmt) in units of 0/1/2/3/4/8 decimals (JPY, XDC, CHF, KWD, CLF, BTC; amounts 5 units, all-decimals figure, >= 1 000 000, 1.1) x notation {full, minimal, zero-padded} x precision {unit, none}; Fq-<ccy> pairs over 8 letters; zero figures: Fz one zero-amount entry (CRDT, DBIT) x 2 date forms x 10 charge-free shapes, Fz2 pairs over side x {0, 10.10} x {k0,k1,k2}, Fz3 triples over side x {0, 0.05} x k0 (x 2 row orders); movements of charges only next to other entries: Fa2 pairs over side x {0.05, 10.10} x {k0, k0-entry-all, k1-det-all-noamtdtls, k2-det2-all-noamtdtls}, Fa3 triples over side x {0.05} x {k0, k0-entry-all} (x 2 row orders). states = statements executed, transitions = ledger transactions compared with the reference (both observations), validated = MUST statements",
     assumptions: &[
         "the generator's XML skeleton follows okane's own sample file (cli/tests/testdata/import/iso_camt.xml); elements okane does not model (GrpHdr, Acct, TxsSummry, RvslInd, Sts, Btch totals, RltdPties) are constant",
         "included charge: the entry/detail amount is the account movement; AmtDtls/TxAmt (when rendered) is the amount net of the included charges (debit: Amt - charges, credit: Amt + charges) as in the sample file; an entry-level charge on a two-detail batch is attributed to the first detail's TxAmt",
         "printed text is read back with okane's own parser; acceptance and balances come from report::process (the subject of C01-C04, trusted here)",
-        "DON'T-CARE: statements without entries (no transaction can carry the two assertions) and statements containing a charge that is NOT included (outside the quantifier): they are executed, shape clauses are judged where applicable, acceptance/final balance are only recorded; a statement with a non-zero charge under a configuration without operator (okane needs the operator as payee of the commission): only recorded",
+        "DON'T-CARE: statements without entries (no transaction can carry the two assertions) and statements containing a charge that is NOT included (outside the quantifier): they are executed, shape clauses are judged where applicable, acceptance/final balance are only recorded; a statement with a non-zero charge under a configuration without operator (okane needs the operator as payee of the commission): only recorded; a DEBIT said to include charges larger than itself (amount + one unit: a part larger than the whole): executed and recorded, never judged. Charges EQUAL to a debit (a movement of charges only) and any charge on a credit are consistent figures and fully judged",
         "silent and therefore not judged directly: payee, counter-account, charge postings, date and amount of the opening-balance transaction, assertions on intermediate transactions",
     ],
     shards: 64,
@@ -184,12 +184,33 @@ enum Chg {
     NotIncl,
     /// two not-included records of 0.01 each
     NotIncl2,
+    // --- included charges measured against the amount of the imported transaction that carries them (its CARRIER:
+    //     the entry without details, the detail; entry-level charges of a batch are carried by the first detail)
+    /// one included record of exactly the carrier's amount: the movement consists of charges only (account keeping fee)
+    All,
+    /// two / three included records summing to exactly the carrier's amount: (amount - 0.01, 0.01) / (0.01, amount - 0.02, 0.01)
+    AllIn2,
+    AllIn3,
+    /// one included record of the carrier's amount minus one unit (0.01 is left for the counter posting)
+    AllBut1,
+    /// one included record of the carrier's amount PLUS one unit / two records (amount, 0.01): more than the amount
+    Over,
+    Over2,
 }
+
+/// carrier amount used where only the presence of records matters (every real carrier is >= 2 units)
+const NOMINAL: i64 = 5;
 
 impl Chg {
     /// the charge records of one <Chrgs> block: (amount in cents, ChrgInclInd)
-    fn records(self, level_amount: i64) -> Vec<(i64, Option<bool>)> {
+    fn records(self, level_amount: i64, carrier: i64) -> Vec<(i64, Option<bool>)> {
         match self {
+            Chg::All => vec![(carrier, Some(true))],
+            Chg::AllIn2 => vec![(carrier - 1, Some(true)), (1, Some(true))],
+            Chg::AllIn3 => vec![(1, Some(true)), (carrier - 2, Some(true)), (1, Some(true))],
+            Chg::AllBut1 => vec![(carrier - 1, Some(true))],
+            Chg::Over => vec![(carrier + 1, Some(true))],
+            Chg::Over2 => vec![(carrier, Some(true)), (1, Some(true))],
             Chg::None | Chg::Empty => vec![],
             Chg::Zero => vec![(0, None)],
             Chg::Incl => vec![(level_amount, Some(true))],
@@ -200,14 +221,14 @@ impl Chg {
             Chg::NotIncl2 => vec![(1, Some(false)); 2],
         }
     }
-    fn included(self, level_amount: i64) -> i64 {
-        self.records(level_amount).iter().filter(|r| r.1 == Some(true)).map(|r| r.0).sum()
+    fn included(self, level_amount: i64, carrier: i64) -> i64 {
+        self.records(level_amount, carrier).iter().filter(|r| r.1 == Some(true)).map(|r| r.0).sum()
     }
-    fn not_included(self, level_amount: i64) -> i64 {
-        self.records(level_amount).iter().filter(|r| r.1 == Some(false)).map(|r| r.0).sum()
+    fn not_included(self, level_amount: i64, carrier: i64) -> i64 {
+        self.records(level_amount, carrier).iter().filter(|r| r.1 == Some(false)).map(|r| r.0).sum()
     }
     fn nonzero_records(self) -> usize {
-        self.records(1).iter().filter(|r| r.0 != 0).count()
+        self.records(1, NOMINAL).iter().filter(|r| r.0 != 0).count()
     }
 }
 
@@ -260,7 +281,15 @@ const fn shz(name: &'static str, k: usize, lay: Lay, d1: Chg, amt_dtls: bool) ->
     Shape { name, k, opp: None, lay, btch: true, entry_chg: Chg::None, det_chg: [Chg::None, d1, Chg::None], amt: [amt_dtls; 3] }
 }
 
-const SHAPES: [Shape; 48] = [
+/// any combination (the charge-versus-amount shapes)
+const fn sha(name: &'static str, k: usize, opp: Option<usize>, entry_chg: Chg, det_chg: [Chg; 3], amt: [bool; 3]) -> Shape {
+    Shape { name, k, opp, lay: Lay::Std, btch: k > 0, entry_chg, det_chg, amt }
+}
+
+const NO3: [Chg; 3] = [Chg::None; 3];
+const F3: [bool; 3] = [false; 3];
+
+const SHAPES: [Shape; 68] = [
     sh("k0", 0, false, Chg::None, Chg::None, Chg::None, false),
     sh("k0-btch", 0, true, Chg::None, Chg::None, Chg::None, false),
     sh("k1", 1, true, Chg::None, Chg::None, Chg::None, false),
@@ -315,6 +344,34 @@ const SHAPES: [Shape; 48] = [
     shz("k3-zero-mid", 3, Lay::ZeroAt(1), Chg::None, false),
     shz("k2-zero-amtdtls", 2, Lay::ZeroAt(1), Chg::None, true),
     shz("k2-txamt-zero", 2, Lay::TinyLast, Chg::Incl, true),
+    // included charges measured against the amount that carries them, and NO TxAmt unless said otherwise:
+    // exactly the amount (a movement that consists of charges only), in 1 / 2 / 3 records, one unit less, ...
+    sha("k0-entry-all", 0, None, Chg::All, NO3, F3),
+    sha("k0-entry-all-in2", 0, None, Chg::AllIn2, NO3, F3),
+    sha("k0-entry-all-in3", 0, None, Chg::AllIn3, NO3, F3),
+    sha("k0-entry-allbut1", 0, None, Chg::AllBut1, NO3, F3),
+    sha("k1-det-all-noamtdtls", 1, None, Chg::None, [Chg::All, Chg::None, Chg::None], F3),
+    sha("k1-det-all-in2-noamtdtls", 1, None, Chg::None, [Chg::AllIn2, Chg::None, Chg::None], F3),
+    sha("k1-entry-all-noamtdtls", 1, None, Chg::All, NO3, F3),
+    // entry-level record (amount - 0.01) + detail-level record 0.01 on the same transaction
+    sha("k1-both-all-noamtdtls", 1, None, Chg::AllBut1, [Chg::InclSmall, Chg::None, Chg::None], F3),
+    sha("k1-det-allbut1-noamtdtls", 1, None, Chg::None, [Chg::AllBut1, Chg::None, Chg::None], F3),
+    // with AmtDtls: TxAmt = 0 for a debit (twice the amount for a credit)
+    sha("k1-det-all", 1, None, Chg::None, [Chg::All, Chg::None, Chg::None], [true; 3]),
+    sha("k2-det-all-noamtdtls", 2, None, Chg::None, [Chg::All, Chg::All, Chg::None], F3),
+    sha("k2-det2-all-noamtdtls", 2, None, Chg::None, [Chg::None, Chg::All, Chg::None], F3),
+    // entry-level charge of a batch = the amount of the first detail, which carries it
+    sha("k2-entry-all-noamtdtls", 2, None, Chg::All, NO3, F3),
+    // the detail of the OPPOSITE side consists of charges only (a debit inside a credit entry and vice versa)
+    sha("k2-mixed-det2-all-noamtdtls", 2, Some(1), Chg::None, [Chg::None, Chg::All, Chg::None], F3),
+    // first detail with TxAmt (net of a 0.01 charge), second without TxAmt and all charges
+    sha("k2-TN-all", 2, None, Chg::None, [Chg::Incl, Chg::All, Chg::None], [true, false, false]),
+    // ... and one unit MORE than the amount (DON'T-CARE for a debit, see judge())
+    sha("k0-entry-over", 0, None, Chg::Over, NO3, F3),
+    sha("k0-entry-over2", 0, None, Chg::Over2, NO3, F3),
+    sha("k1-det-over-noamtdtls", 1, None, Chg::None, [Chg::Over, Chg::None, Chg::None], F3),
+    sha("k2-det2-over-noamtdtls", 2, None, Chg::None, [Chg::None, Chg::Over, Chg::None], F3),
+    sha("k2-mixed-det2-over-noamtdtls", 2, Some(1), Chg::None, [Chg::None, Chg::Over, Chg::None], F3),
 ];
 
 /// the shapes up to here form the pair alphabet of the thorough tier (the later ones are in F1 only)
@@ -337,14 +394,14 @@ impl Shape {
         (1..self.k).any(|j| self.amt[j] != self.amt[0])
     }
     fn has_not_included(&self) -> bool {
-        self.entry_chg.not_included(ENTRY_CHARGE) > 0 || (0..self.k).any(|j| self.chg(j).not_included(DETAIL_CHARGE) > 0)
+        self.entry_chg.not_included(ENTRY_CHARGE, NOMINAL) > 0 || (0..self.k).any(|j| self.chg(j).not_included(DETAIL_CHARGE, NOMINAL) > 0)
     }
     /// one entry-level charge record on an entry with two details
     fn entry_charge_on_batch(&self) -> bool {
-        self.k >= 2 && self.entry_chg.included(ENTRY_CHARGE) > 0
+        self.k >= 2 && self.entry_chg.included(ENTRY_CHARGE, NOMINAL) > 0
     }
     fn has_included(&self) -> bool {
-        self.entry_chg.included(ENTRY_CHARGE) > 0 || (0..self.k).any(|j| self.chg(j).included(DETAIL_CHARGE) > 0)
+        self.entry_chg.included(ENTRY_CHARGE, NOMINAL) > 0 || (0..self.k).any(|j| self.chg(j).included(DETAIL_CHARGE, NOMINAL) > 0)
     }
     /// largest number of non-zero charge records that land on one imported transaction
     /// (entry-level records go to the entry's transaction, resp. to the first detail's)
@@ -361,7 +418,7 @@ impl Shape {
         if self.k == 0 {
             return self.has_included();
         }
-        (0..self.k).any(|j| !self.amt[j] && (self.chg(j).included(DETAIL_CHARGE) > 0 || (j == 0 && self.entry_chg.included(ENTRY_CHARGE) > 0)))
+        (0..self.k).any(|j| !self.amt[j] && (self.chg(j).included(DETAIL_CHARGE, NOMINAL) > 0 || (j == 0 && self.entry_chg.included(ENTRY_CHARGE, NOMINAL) > 0)))
     }
 }
 
@@ -418,6 +475,30 @@ impl EntrySpec {
             (3, Some(2)) => vec![(f, own), (2 * x, own), (x, other)],
             _ => panic!("harness bug: unsupported detail layout"),
         }
+    }
+    /// amount of the imported transaction that carries the entry-level charges: the entry itself, or its first detail
+    fn entry_carrier(&self) -> i64 {
+        self.details().first().map(|d| d.0).unwrap_or(self.amount())
+    }
+    /// per imported transaction of the entry: (amount, own side, sum of the included charge records it carries)
+    fn carried_charges(&self) -> Vec<(i64, Side, i64)> {
+        let s = self.shape();
+        let ds = self.details();
+        if ds.is_empty() {
+            return vec![(self.amount(), self.side, s.entry_chg.included(ENTRY_CHARGE, self.amount()))];
+        }
+        ds.iter()
+            .enumerate()
+            .map(|(j, (da, side))| (*da, *side, s.chg(j).included(DETAIL_CHARGE, *da) + if j == 0 { s.entry_chg.included(ENTRY_CHARGE, *da) } else { 0 }))
+            .collect()
+    }
+    /// a DEBIT movement that consists of included charges only (charges = amount: nothing is left for the counter party)
+    fn debit_is_all_charges(&self) -> bool {
+        self.carried_charges().iter().any(|(a, side, c)| *side == Side::Debit && *c > 0 && c == a)
+    }
+    /// a DEBIT movement said to INCLUDE charges larger than itself. (A credit can carry any charge: gross = amount + charge.)
+    fn debit_smaller_than_its_charges(&self) -> bool {
+        self.carried_charges().iter().any(|(a, side, c)| *side == Side::Debit && c > a)
     }
     fn name(&self) -> String {
         format!("{}{}/{}/{}", if self.side == Side::Credit { "+" } else { "-" }, self.unit.fmt(self.amount(), Style::Full), self.shape().name, match self.dates {
@@ -497,8 +578,8 @@ fn ind(c: i64) -> &'static str {
 // ------------------------------------------------------------------------------------------
 // XML rendering (skeleton of cli/tests/testdata/import/iso_camt.xml)
 
-fn render_charges(out: &mut String, stmt: &Stmt, indent: &str, chg: Chg, level_amount: i64) {
-    let recs = chg.records(level_amount);
+fn render_charges(out: &mut String, stmt: &Stmt, indent: &str, chg: Chg, level_amount: i64, carrier: i64) {
+    let recs = chg.records(level_amount, carrier);
     if chg == Chg::None {
         return;
     }
@@ -540,7 +621,7 @@ fn render_entry(out: &mut String, stmt: &Stmt, i: usize) {
     }
     let fam = if e.side == Side::Credit { "RCDT" } else { "ICDT" };
     out.push_str(&format!("        <BkTxCd>\n          <Domn>\n            <Cd>PMNT</Cd>\n            <Fmly>\n              <Cd>{}</Cd>\n              <SubFmlyCd>OTHR</SubFmlyCd>\n            </Fmly>\n          </Domn>\n        </BkTxCd>\n", fam));
-    render_charges(out, stmt, "        ", s.entry_chg, ENTRY_CHARGE);
+    render_charges(out, stmt, "        ", s.entry_chg, ENTRY_CHARGE, e.entry_carrier());
     if (s.btch && !stmt.no_btch_header) || s.k > 0 {
         out.push_str("        <NtryDtls>\n");
         if !stmt.no_btch_header {
@@ -553,11 +634,11 @@ fn render_entry(out: &mut String, stmt: &Stmt, i: usize) {
             out.push_str(&format!("            <Amt Ccy=\"{}\">{}</Amt>\n            <CdtDbtInd>{}</CdtDbtInd>\n", stmt.ccy(), stmt.m(*da), dcd));
             if s.amt[j] {
                 // charges carried by this detail
-                let mut incl = s.chg(j).included(DETAIL_CHARGE);
-                let mut not_incl = s.chg(j).not_included(DETAIL_CHARGE);
+                let mut incl = s.chg(j).included(DETAIL_CHARGE, *da);
+                let mut not_incl = s.chg(j).not_included(DETAIL_CHARGE, *da);
                 if j == 0 {
-                    incl += s.entry_chg.included(ENTRY_CHARGE);
-                    not_incl += s.entry_chg.not_included(ENTRY_CHARGE);
+                    incl += s.entry_chg.included(ENTRY_CHARGE, *da);
+                    not_incl += s.entry_chg.not_included(ENTRY_CHARGE, *da);
                 }
                 // net amount of the underlying transaction: debit: the account paid amount = net + charge;
                 // credit: the account received amount = net - charge
@@ -565,7 +646,7 @@ fn render_entry(out: &mut String, stmt: &Stmt, i: usize) {
                 let instd = if *dside == Side::Debit { tx_amt - not_incl } else { tx_amt + not_incl };
                 out.push_str(&format!("            <AmtDtls>\n              <InstdAmt>\n                <Amt Ccy=\"{c}\">{i}</Amt>\n              </InstdAmt>\n              <TxAmt>\n                <Amt Ccy=\"{c}\">{t}</Amt>\n              </TxAmt>\n            </AmtDtls>\n", c = stmt.ccy(), i = stmt.m(instd), t = stmt.m(tx_amt)));
             }
-            render_charges(out, stmt, "            ", s.chg(j), DETAIL_CHARGE);
+            render_charges(out, stmt, "            ", s.chg(j), DETAIL_CHARGE, *da);
             let (me, other) = if *dside == Side::Credit { ("Cdtr", "Dbtr") } else { ("Dbtr", "Cdtr") };
             out.push_str(&format!("            <RltdPties>\n              <{o}>\n                <Nm>Party {i}.{j}</Nm>\n              </{o}>\n              <{m}>\n                <Nm>Taro Yamada</Nm>\n              </{m}>\n            </RltdPties>\n", o = other, m = me, i = i + 1, j = j + 1));
             out.push_str(&format!("            <AddtlTxInf>detail {}.{}</AddtlTxInf>\n          </TxDtls>\n", i + 1, j + 1));
@@ -967,7 +1048,25 @@ fn funding(stmt: &Stmt, account: &str) -> String {
     format!("1990/01/01 * funding\n    {}    {} {}\n    Equity:Opening    {} {}\n\n", account, stmt.m(stmt.opening), stmt.ccy(), stmt.m(-stmt.opening), stmt.ccy())
 }
 
+/// A DEBIT movement that is said to include charges LARGER than itself contradicts "charges included in the amount"
+/// (a part larger than the whole; the amount before charges would have to change sides): the property is silent.
+/// Such statements are executed and what happens is recorded, never judged. Charges EQUAL to the debit (an account
+/// keeping fee: the movement consists of charges only) and any charge on a credit (gross = amount + charge) are
+/// consistent figures and fully judged.
 fn judge(sc: &Scratch, stmt: &Stmt, xml: &str, txns_compared: &mut u64) -> Outcome {
+    let out = judge_consistent(sc, stmt, xml, txns_compared);
+    if !stmt.entries.iter().any(|e| e.debit_smaller_than_its_charges()) {
+        return out;
+    }
+    let reason = "included-charges-exceed-the-debit";
+    match out.verdict {
+        crate::fw::Verdict::Pass => Outcome::dont_care(format!("dc/{}/imported-accepted-and-conserved", reason)),
+        crate::fw::Verdict::DontCare => Outcome::dont_care(format!("dc/{}/{}", reason, out.class.trim_start_matches("dc/"))),
+        crate::fw::Verdict::Violation { sig, .. } => Outcome::dont_care(format!("dc/{}/{}", reason, sig.split('@').next().unwrap_or(""))),
+    }
+}
+
+fn judge_consistent(sc: &Scratch, stmt: &Stmt, xml: &str, txns_compared: &mut u64) -> Outcome {
     let exp = expected(stmt);
     let account = stmt.cfg.account.as_str();
     // --- the configuration as okane resolves it for the statement file (layered fragments: the most specific wins)
@@ -1015,7 +1114,11 @@ fn judge(sc: &Scratch, stmt: &Stmt, xml: &str, txns_compared: &mut u64) -> Outco
     }
     let lib = match lib {
         Ok(v) => v,
-        Err(e) => return Outcome::violation(format!("import-fails/{}", e.split(':').next().unwrap_or("")), format!("the importer rejected a consistent statement: {}", e)),
+        Err(e) => {
+            // input-shape part of the signature (only for the shape added last, so that older signatures stay as they were)
+            let shape = if stmt.entries.iter().any(|e| e.debit_is_all_charges()) { "/debit-of-included-charges-only" } else { "" };
+            return Outcome::violation(format!("import-fails/{}{}", e.split(':').next().unwrap_or(""), shape), format!("the importer rejected a consistent statement: {}", e));
+        }
     };
     let text = match cmd {
         Ok(t) => t,
@@ -1087,7 +1190,9 @@ fn judge(sc: &Scratch, stmt: &Stmt, xml: &str, txns_compared: &mut u64) -> Outco
     let chg = stmt.entries.iter().any(|e| e.shape().has_included());
     let eff = exp.iter().any(|e| e.eff.is_some());
     let noval = stmt.entries.iter().any(|e| matches!(e.dates, Dates::ValueAbsent | Dates::BookDtTmOnly));
-    let kind = if stmt.entries.iter().any(|e| e.has_zero_figure()) {
+    let kind = if stmt.entries.iter().any(|e| e.debit_is_all_charges()) {
+        "-allchg"
+    } else if stmt.entries.iter().any(|e| e.has_zero_figure()) {
         "-zero"
     } else if stmt.style != Style::Hybrid {
         "-precision"
@@ -1155,7 +1260,7 @@ fn families(thorough: bool) -> Vec<Family> {
     let all_dates = [Dates::Same, Dates::BookLater, Dates::BookEarlier, Dates::ValueAbsent, Dates::BookDtTmOnly];
     let all_shapes: Vec<usize> = (0..SHAPES.len()).collect();
     let idx = |names: &[&str]| -> Vec<usize> { names.iter().map(|n| shape_idx(n)).collect() };
-    // E: 2 x 3 x 5 x 48 = 1440
+    // E: 2 x 3 x 5 x 68 = 2040
     let full = alphabet(&both, &all_amts, &all_dates, &all_shapes);
     // Ep: 2 x 3 x 5 x 38 = 1140 (E without the four zero/empty-<Chrgs> shapes)
     let pairs = alphabet(&both, &all_amts, &all_dates, &all_shapes[..PAIR_SHAPES]);
@@ -1220,18 +1325,23 @@ fn families(thorough: bool) -> Vec<Family> {
     f.push(fam("Fz", 1, true, alphabet(&both, &[ZERO_AMT], &[Dates::Same, Dates::BookLater], &idx(&["k0", "k0-btch", "k1", "k1-amtdtls", "k2", "k2-amtdtls", "k2-mixed", "k3", "k0-entry-zero-chg", "k1-zero-chg"]))));
     f.push(fam("Fz2", 2, true, alphabet(&both, &[ZERO_AMT, 1], &[Dates::Same], &idx(&["k0", "k1", "k2"]))));
     f.push(fam("Fz3", 3, true, alphabet(&both, &[ZERO_AMT, 0], &[Dates::Same], &idx(&["k0"]))));
+    // --- movements that consist of charges only (included charges = amount, no TxAmt) next to other entries:
+    //     Fa2 pairs over side x {0.05, 10.10} x {k0, k0-entry-all, k1-det-all-noamtdtls, k2-det2-all-noamtdtls} = 16 letters,
+    //     Fa3 triples over side x {0.05} x {k0, k0-entry-all} = 4 letters (first / middle / last: carries the closing assertion)
+    f.push(fam("Fa2", 2, true, alphabet(&both, &[0, 1], &[Dates::Same], &idx(&["k0", "k0-entry-all", "k1-det-all-noamtdtls", "k2-det2-all-noamtdtls"]))));
+    f.push(fam("Fa3", 3, true, alphabet(&both, &[0], &[Dates::Same], &idx(&["k0", "k0-entry-all"]))));
     // --- value classes outside the small scope
     // Fd: one entry, every (value date, booking date) pair of DATE_PAIRS: 2 x 3 x 20 x 3 = 360 letters, both row orders
     let pair_dates: Vec<Dates> = (0..DATE_PAIRS.len()).map(Dates::Pair).collect();
     f.push(fam("Fd", 1, true, alphabet(&both, &all_amts, &pair_dates, &idx(&["k0", "k1", "k2"]))));
-    // Fp-<ccy>: one entry in a unit of 0/1/2/3/4/8 decimals: 2 x 4 amounts x 4 shapes = 32 letters
+    // Fp-<ccy>: one entry in a unit of 0/1/2/3/4/8 decimals: 2 x 4 amounts x 6 shapes = 48 letters
     //           x figures written {in full, minimal, zero-padded} x precision {decimals of the unit, none}
     // Fq-<ccy>: two entries without details: (2 x 4)^2 = 64 sequences, written in full, precision of the unit
     const FP: [&str; 6] = ["Fp-JPY", "Fp-XDC", "Fp-CHF", "Fp-KWD", "Fp-CLF", "Fp-BTC"];
     const FQ: [&str; 6] = ["Fq-JPY", "Fq-XDC", "Fq-CHF", "Fq-KWD", "Fq-CLF", "Fq-BTC"];
     for (u, unit) in UNITS_P.iter().enumerate() {
         let cfg = |precision| CfgSpec { ccy: unit.ccy, precision, ..CfgSpec::plain(false, true) };
-        let ep = alphabet_of(unit, &both, &[0, 1, 2, 3], &[Dates::Same], &idx(&["k0", "k1-amtdtls", "k2", "k1-entry-incl"]));
+        let ep = alphabet_of(unit, &both, &[0, 1, 2, 3], &[Dates::Same], &idx(&["k0", "k1-amtdtls", "k2", "k1-entry-incl", "k0-entry-all", "k1-det-all-noamtdtls"]));
         f.push(Family { name: FP[u], n: 1, cfgs: vec![cfg(Some(unit.scale)), cfg(None)], styles: vec![Style::Full, Style::Minimal, Style::Padded], unit, alpha: ep });
         let eq = alphabet_of(unit, &both, &[0, 1, 2, 3], &[Dates::Same], &idx(&["k0"]));
         f.push(Family { name: FQ[u], n: 2, cfgs: vec![cfg(Some(unit.scale))], styles: vec![Style::Full], unit, alpha: eq });
@@ -1290,6 +1400,8 @@ fn run(ctx: &mut Ctx) {
             ctx.count("details_with_opposite_indicator", stmt.entries.iter().filter(|e| e.shape().opp.is_some()).count() as u64);
             ctx.count("details", stmt.entries.iter().map(|e| e.shape().k as u64).sum());
             ctx.count("statements_without_btch_header", stmt.no_btch_header as u64);
+            ctx.count("entries_with_a_debit_that_is_all_included_charges", stmt.entries.iter().filter(|e| e.debit_is_all_charges()).count() as u64);
+            ctx.count("entries_with_a_debit_smaller_than_its_included_charges", stmt.entries.iter().filter(|e| e.debit_smaller_than_its_charges()).count() as u64);
         }
     }
     ctx.fact("statements_total", total);
